@@ -21,10 +21,10 @@ Definition hfile1 (n : string) (ds : list hdecl) : hfile := {| h_name := n; h_im
 
 Definition cmd_new (line : string) (types : list string) (getset json : bool) : cmd :=
   {| c_sub := CNew; c_line := line; c_types := types; c_star := false; c_file := ""; c_sepflag := false;
-     c_getset := getset; c_json := json; c_opt := false; c_ejson := false; c_etext := false; c_toonly := false; c_fromonly := false |}.
+     c_getset := getset; c_json := json; c_opt := false; c_short := false; c_ejson := false; c_etext := false; c_toonly := false; c_fromonly := false |}.
 Definition cmd_map (line : string) (types : list string) : cmd :=
   {| c_sub := CMap; c_line := line; c_types := types; c_star := false; c_file := ""; c_sepflag := false;
-     c_getset := false; c_json := false; c_opt := false; c_ejson := false; c_etext := false; c_toonly := false; c_fromonly := false |}.
+     c_getset := false; c_json := false; c_opt := false; c_short := false; c_ejson := false; c_etext := false; c_toonly := false; c_fromonly := false |}.
 
 Definition with_reset (f : resets -> resets) : resets := f all_resets.
 Definition no_hasnew : resets :=
